@@ -6,7 +6,6 @@ import (
 	"errors"
 
 	"github.com/thomasjungblut/go-sstables/recordio"
-	"github.com/thomasjungblut/go-sstables/skiplist"
 	"github.com/thomasjungblut/go-sstables/vrt"
 	"google.golang.org/protobuf/proto"
 )
@@ -57,7 +56,7 @@ func H_C15_StreamWriter() {
 	fs.MkdirAll(dir)
 	dataComp := []int{recordio.CompressionTypeNone, recordio.CompressionTypeSnappy}[vrt.Choose("datacomp", 2)]
 	wbuf := []int{6, 64}[vrt.Choose("wbuf", 2)]
-	w, err := NewSSTableStreamWriter(WriteBasePath(dir), WithKeyComparator(skiplist.BytesComparator{}),
+	w, err := NewSSTableStreamWriter(WriteBasePath(dir), WithKeyComparator(vScaledComparator{}),
 		WriteBufferSizeBytes(wbuf), DataCompressionType(dataComp))
 	vrt.Assert(err == nil && w.Open() == nil, "writer/open-no-error")
 	fd := &vFailData{WriterI: w.dataWriter}
